@@ -332,3 +332,27 @@ def term_str(t):
 
 def expr_str(e, limit=20):
     return "\n".join(term_str(t) for t in e[:limit]) + ("" if len(e) <= limit else f"\n... ({len(e)} terms)")
+
+
+# ------------------------------------------------------------------ wire -> tuples
+
+def t_from_json(t):
+    return ("T", t["k"], t["n"], tuple(tuple(i) for i in t["u"]), tuple(tuple(i) for i in t["l"]), t["bk"])
+
+
+def obj_from_json(o):
+    if o["t"] == "T":
+        return t_from_json(o)
+    if o["t"] == "D":
+        return ("D", tuple(o["i"]), tuple(o["j"]))
+    if o["t"] == "S":
+        return ("S", o["n"])
+    return ("P", tuple((Fraction(p["c"][0], p["c"][1]), tuple(t_from_json(t) for t in p["ts"])) for p in o["ps"]), o["e"])
+
+
+def term_from_json(t):
+    return (Fraction(t["c"][0], t["c"][1]), tuple(obj_from_json(o) for o in t["o"]), tuple(tuple(i) for i in t["x"]))
+
+
+def expr_from_json(e):
+    return [term_from_json(t) for t in e]
